@@ -13,11 +13,11 @@ TECHNIQUE = "complete enumeration of solver assignments x initial guesses x all 
 RULE = (
     "complete product aerostructural configuration x nonlinear solver x linear solver x initial guess x ALL orders of visiting three design "
     "points (part path); fixed-point residual of the converged state recomputed by the harness with separately built real discipline "
-    "components (part fixed); every flight input of every other point perturbed in both directions in 2- and 3-point models (part multi); "
+    "components (part fixed); every point of 2- and 3-point models (both point orders) compared with the single-point model of its condition, and every flight input of every other point perturbed in both directions (part multi); "
     "stiffness ladder (part stiff); non-trivial = distinct converged states with non-zero displacement"
 )
 ASSUMPTIONS = ["finite alphabets (configurations, three design points, solver menu)", "convergent couplings only (err_on_non_converge=True; a non-convergent cell is inadmissible, counted)", "solvers tightened to atol 1e-8 / rtol 1e-13 (user-level setting); comparison at 1e-7", "OpenMDAO/NumPy/SciPy trusted"]
-BOUND = {"quick": "2 configurations x 5 solver cells x 3 guesses x 6 orders", "thorough": "6 configurations"}
+BOUND = {"quick": "2 configurations x 5 solver cells x 2 guesses x 6 orders + point-mass configuration; 2-/3-point models in both point orders vs single-point models", "thorough": "7 configurations"}
 TOL = 1e-7
 
 CONFIGS = {
@@ -27,7 +27,15 @@ CONFIGS = {
     "wingbox_full": dict(model="wingbox", sym=False, relief=False),
     "tube_sym_relief": dict(model="tube", sym=True, relief=True),
     "wingbox_sym": dict(model="wingbox", sym=True, relief=False),
+    # point mass + engine thrust + weight relief (the inertial loads scale with the load factor of each flight point)
+    "tube_sym_pm": dict(model="tube", sym=True, relief=True, pm=True),
 }
+
+
+def pm_of(cfg):
+    if not CONFIGS[cfg].get("pm"):
+        return None
+    return dict(point_masses=[600.0], engine_thrusts=[5.0e3], point_mass_locations=[[1.1, -2.3, -0.35]])
 CELLS = [("aitken", "direct"), ("nlbgs", "direct"), ("newton", "direct"), ("newton", "lbgs"), ("newton", "krylov_plain")]
 POINTS = [
     {"alpha": 4.0, "v": 100.0, "load_factor": 1.3, "wing.twist_cp": [2.0, 3.0, 1.0]},
@@ -47,8 +55,10 @@ def states(tier, seed):
     for c in cfgs if tier == "quick" else list(CONFIGS):
         for k in range(3):
             st.append(dict(part="fixed", cfg=c, k=k, fam=fam))
-    for c, npts in itertools.product(cfgs[:1] if tier == "quick" else cfgs[:3], [2, 3]):
-        st.append(dict(part="multi", cfg=c, npts=npts, fam=fam))
+    for c, npts, rev in itertools.product((cfgs[:1] if tier == "quick" else cfgs[:3]) + ["tube_sym_pm"], [2, 3], [False, True]):
+        st.append(dict(part="multi", cfg=c, npts=npts, rev=rev, fam=fam))
+    for order in itertools.permutations(range(3)):
+        st.append(dict(part="path", cfg="tube_sym_pm", nl="nlbgs", lin="direct", guess="default", order=list(order), fam=fam))
     for c in cfgs:
         st.append(dict(part="stiff", cfg=c, fam=fam))
     return st, 0
@@ -59,6 +69,8 @@ def surface(cfg, fam, E_scale=1.0):
     ny = 3 if c["sym"] else 5
     m = gen.make_mesh("twdi", 2, ny, "left" if c["sym"] else "full", fam, asym=not c["sym"], span=10.0, chord=1.6)
     kw = dict(struct_weight_relief=c["relief"], with_viscous=True, twist_cp=np.array([2.0, 3.0, 1.0]))
+    if c.get("pm"):
+        kw["n_point_masses"] = 1
     s = builders.struct_surface("wing", m, c["sym"], c["model"], **kw)
     s["E"] *= E_scale
     s["G"] *= E_scale
@@ -84,7 +96,7 @@ _REFS = {}
 def ref_obs(cfg, fam, k):
     key = (cfg, fam, k)
     if key not in _REFS:
-        p = builders.build_aerostruct([surface(cfg, fam)], FLOW)
+        p = builders.build_aerostruct([surface(cfg, fam)], FLOW, pm=pm_of(cfg))
         builders.tighten(p)
         set_pt(p, k)
         p.run_model()
@@ -97,7 +109,7 @@ def run_state(s):
 
 
 def part_path(s):
-    p = builders.build_aerostruct([surface(s["cfg"], s["fam"])], FLOW)
+    p = builders.build_aerostruct([surface(s["cfg"], s["fam"])], FLOW, pm=pm_of(s["cfg"]))
     builders.tighten(p, nl=s["nl"], lin=s["lin"])
     viol, val = [], 0
     dg = []
@@ -192,11 +204,27 @@ PER_POINT = ["v", "alpha", "Mach_number", "re", "rho", "CT", "R", "W0", "speed_o
 def part_multi(s):
     n = s["npts"]
     pf = [dict(), dict(alpha=2.0, load_factor=2.5, v=130.0), dict(alpha=6.0, load_factor=1.0, v=80.0)][:n]
-    p = builders.build_aerostruct([surface(s["cfg"], s["fam"])], FLOW, npoints=n, point_flows=pf)
+    if s.get("rev"):
+        pf = pf[::-1]
+    p = builders.build_aerostruct([surface(s["cfg"], s["fam"])], FLOW, npoints=n, point_flows=pf, pm=pm_of(s["cfg"]))
     builders.tighten(p, npoints=n)
     p.run_model()
     base = [observe(p, "AS_point_%d" % i) for i in range(n)]
     viol, val, runs = [], 0, 1
+    # every flight point of the multipoint model equals the single-point model (own surface dictionary) at that condition
+    for i in range(n):
+        fl = dict(FLOW)
+        fl.update(pf[i])
+        q = builders.build_aerostruct([surface(s["cfg"], s["fam"])], fl, pm=pm_of(s["cfg"]))
+        builders.tighten(q)
+        q.run_model()
+        runs += 1
+        single = observe(q)
+        for o in OBS:
+            val += 1
+            e = np.abs(base[i][o] - single[o]).max() / max(np.abs(single[o]).max(), 1e-300)
+            if not e <= TOL:
+                viol.append(dict(sig=dict(oracle="multipoint_equals_single", observable=o.split(".")[-1], cfg=s["cfg"]), msg="%s of point %d of the %d-point model differs from the single-point analysis of the same condition by %.2e" % (o, i, n, e), measure=float(e)))
     changed_any = 0
     for j in range(n):
         for name in PER_POINT:
